@@ -61,6 +61,56 @@ impl Distribution<PushGene> for Elem {
 pub enum Case {
     Collection { kind: u8, size: usize, seed: u64, borrowed: bool },
     Choice { flavour: u8, items: Vec<i32>, seed: u64, draws: u8 },
+    /// one generator value used for `first` elements, then re-tuned through its public `size` field (and used again)
+    Resized { kind: u8, first: usize, size: usize, seed: u64 },
+}
+
+fn resized_case(kind: u8, first: usize, size: usize, seed: u64, probe: &mut Probe) -> Result<(), Fail> {
+    let elem = Elem::new();
+    let mut rng = Counting::new(seed);
+    let kind_name = ["Vec<u64>", "Bitstring", "Plushy"][usize::from(kind % 3)];
+    let name = format!("collection<{kind_name}>");
+    let lens = guarded(|| -> (usize, usize, bool) {
+        let mut g = Generator::new(&elem, first);
+        match kind % 3 {
+            0 => {
+                let a: Vec<u64> = g.sample(&mut rng);
+                g.size = size;
+                let b: Vec<u64> = g.sample(&mut rng);
+                let mut sorted = b.clone();
+                sorted.sort_unstable();
+                (a.len(), b.len(), sorted.iter().enumerate().all(|(i, x)| *x == (first + i) as u64))
+            }
+            1 => {
+                let a: Bitstring = g.sample(&mut rng);
+                g.size = size;
+                let b: Bitstring = g.sample(&mut rng);
+                (a.bits.len(), b.bits.len(), true)
+            }
+            _ => {
+                let a: Plushy = g.sample(&mut rng);
+                g.size = size;
+                let b: Plushy = g.sample(&mut rng);
+                (a.get_genes().len(), b.get_genes().len(), true)
+            }
+        }
+    });
+    let (a, b, from_generator) = match lens {
+        Ok(r) => r,
+        Err(p) => fail!(format!("{name}/panic:{}", panic_key(&p)), "generating {first} and then {size} elements from one generator value panicked: {p}"),
+    };
+    ensure!(a == first, format!("{name}/wrong-size"), "requested {first} elements, got {a}");
+    ensure!(b == size, format!("{name}/wrong-size-after-resize"), "generator made for {first} elements, used, then size = {size}: got {b} elements");
+    ensure!(from_generator, format!("{name}/elements-not-from-generator"), "after the resize to {size} the elements are not exactly the element generator's output of that call");
+    ensure!(
+        elem.calls.get() == (first + size) as u64,
+        format!("{name}/element-generator-calls"),
+        "{first} and then {size} elements: the element generator was asked {} times",
+        elem.calls.get()
+    );
+    probe.nontrivial = first != size && size >= 1;
+    probe.label("generator value re-tuned (size) after use");
+    Ok(())
 }
 
 fn collection_case(kind: u8, size: usize, seed: u64, borrowed: bool, probe: &mut Probe) -> Result<(), Fail> {
@@ -292,6 +342,7 @@ pub fn oracle(c: &Case, probe: &mut Probe) -> Result<(), Fail> {
     match c {
         Case::Collection { kind, size, seed, borrowed } => collection_case(*kind, *size, *seed, *borrowed, probe),
         Case::Choice { flavour, items, seed, draws } => choice_case(*flavour, items, *seed, *draws, probe),
+        Case::Resized { kind, first, size, seed } => resized_case(*kind, *first, *size, *seed, probe),
     }
 }
 
@@ -301,6 +352,7 @@ pub fn strategy(max_size: usize) -> BoxedStrategy<Case> {
             .prop_map(|(kind, size, seed, borrowed)| Case::Collection { kind, size, seed, borrowed }),
         3 => (0u8..15, prop_oneof![1 => Just(vec![]), 6 => prop::collection::vec(-3i32..4, 1..=8), 2 => prop::collection::vec(any::<i32>(), 1..=8)], any::<u64>(), 1u8..5)
             .prop_map(|(flavour, items, seed, draws)| Case::Choice { flavour, items, seed, draws }),
+        1 => (0u8..3, 0usize..=40, prop_oneof![3 => 0usize..=40, 1 => 0usize..=max_size], any::<u64>()).prop_map(|(kind, first, size, seed)| Case::Resized { kind, first, size, seed }),
     ]
     .boxed()
 }
@@ -510,6 +562,63 @@ fn huge_choice_jobs() -> Vec<Job> {
     jobs
 }
 
+/// Sources whose length makes a 32-bit index sampler *reject and redraw* often: for n = 3 * 2^26 members one
+/// 32-bit word in 64 falls into the rejection zone (2^32 mod n = n / 3), so whatever happens after a rejected
+/// word carries 1/64 of the probability mass and shows in the frequencies of the three thirds of the source.
+fn rejection_heavy_jobs() -> Vec<Job> {
+    let mut jobs = vec![];
+    const THIRD: usize = 1 << 26;
+    let len = 3 * THIRD;
+    for flavour in [0usize, 10, 11] {
+        let name = format!("{} over {len} members (3 * 2^26: every 64th 32-bit word is rejected), built once", FLAVOURS[flavour]);
+        jobs.push(Job {
+            name: name.clone(),
+            run: Box::new(move |trials, seed| {
+                let mut rng = StdRng::seed_from_u64(seed);
+                // a member's value is the third of the source it lies in
+                let items: Vec<u8> = (0..len).map(|i| (i / THIRD) as u8).collect();
+                let mut thirds = [0u64; 3];
+                let bad = |v: u8| Fail::new("choice/not-a-member", format!("{name}: returned {v}"));
+                let built = guarded(|| -> Result<(), Fail> {
+                    match flavour {
+                        0 => {
+                            let d = items.into_distribution().map_err(|_| Fail::new("choice/spurious-empty-error", format!("{name}: rejected")))?;
+                            if ChoicesDistribution::num_choices(&d).get() != len {
+                                return Err(Fail::new("choice/num_choices", format!("{name}: num_choices() = {}", ChoicesDistribution::num_choices(&d))));
+                            }
+                            for _ in 0..trials {
+                                let v: u8 = d.sample(&mut rng);
+                                *thirds.get_mut(usize::from(v)).ok_or_else(|| bad(v))? += 1;
+                            }
+                        }
+                        10 => {
+                            let d = IntoDistribution::<&u8>::into_distribution(items.as_slice()).map_err(|_| Fail::new("choice/spurious-empty-error", format!("{name}: rejected")))?;
+                            for _ in 0..trials {
+                                let v: &u8 = d.sample(&mut rng);
+                                *thirds.get_mut(usize::from(*v)).ok_or_else(|| bad(*v))? += 1;
+                            }
+                        }
+                        _ => {
+                            let d = IntoDistribution::<u8>::into_distribution(items.as_slice()).map_err(|_| Fail::new("choice/spurious-empty-error", format!("{name}: rejected")))?;
+                            for _ in 0..trials {
+                                let v: u8 = d.sample(&mut rng);
+                                *thirds.get_mut(usize::from(v)).ok_or_else(|| bad(v))? += 1;
+                            }
+                        }
+                    }
+                    Ok(())
+                });
+                match built {
+                    Ok(r) => r?,
+                    Err(p) => return Err(Fail::new("choice/panic", format!("{name}: {p}"))),
+                }
+                Ok((0..3).map(|t| Stat::new("choice/not-uniform", format!("{name}: a member of third {t} chosen"), thirds[t], trials, 1.0 / 3.0)).collect())
+            }),
+        });
+    }
+    jobs
+}
+
 /// Member counts beyond 16 and 32 bits, reachable at no cost with zero-sized members: every flavour must
 /// accept the collection, report exactly its length and hand out a member.
 fn wide_count_check(ctx: &mut Ctx) {
@@ -560,6 +669,7 @@ pub fn run(ctx: &mut Ctx) {
     run_jobs(ctx, "choice_uniformity", uniformity_jobs(), trials);
     run_jobs(ctx, "choice_uniformity_long_sources", long_choice_jobs(), trials);
     run_jobs(ctx, "choice_uniformity_huge_sources", huge_choice_jobs(), trials);
+    run_jobs(ctx, "choice_uniformity_rejection_heavy_sources", rejection_heavy_jobs(), trials);
     wide_count_check(ctx);
     // coverage-guided search over the same strategies and oracles (thorough tier; see ptfuzz.rs)
     crate::ptfuzz::thorough(ctx, &[("c18", 16, 1_000_000)]);
